@@ -69,7 +69,8 @@ def prove(ctx):
     SRC["info"] = info
     ctx.notes.append(f"translator(runsrc): {msg}")
     ctx.extra_cov["runsrc_translated"] = bool(info["translated"])
-    ctx.extra_cov["runsrc_fallback"] = 0 if info["translated"] else 1
+    ctx.extra_cov["runsrc_fallback"] = len(info.get("failed") or {})
+    ctx.extra_cov["runsrc_fallback_parts"] = sorted(info.get("failed") or {})
     common.check_proofs(ctx, MODULES, translate_msgs=[(ok, msg)])
 
 
